@@ -29,11 +29,15 @@ def run(ctx):
 
     def one(case, wrap):
         try:
-            return aio.encode(guarded(lambda: aio.call_backend(backends, case, wrap), 5.0), squared=case["op"] == "std")
+            try:
+                value = guarded(lambda: aio.call_backend(backends, case, wrap), 5.0)
+            except CaseTimeout:                 # a stall of the machine is not a verdict: once more, with more time
+                value = guarded(lambda: aio.call_backend(backends, case, wrap), 60.0)
+            return aio.encode(value, squared=case["op"] == "std")
         except aio.NotInBackendApi:
             return {"skip": True}
         except (Exception, CaseTimeout) as e:
-            return {"error": f"{type(e).__name__}: {e}"[:200]}
+            return {"error": f"{type(e).__name__}: {e}"[:200], "etype": type(e).__name__}
 
     cases, results = p3.execute(ctx, cases, cases_file, lambda c: {"np": one(c, aio.as_numpy), "xr": one(c, aio.as_xarray)})
     rf = ctx.scratch / "c15_results.json"
@@ -53,7 +57,7 @@ def run(ctx):
         "cases_by_kind": kinds, "marked_batchable_in_library": marked,
         "rule": "spec/Arrays.tla!Cases enumerated by TLC: sum/prod/min/max/mean/std/var over 2.."
                 f"{consts['MaxArgs']} arrays (shapes (1),(2),(3),(2,2){',(2,3)' if not ctx.quick else ''}; shape (1): all of "
-                f"-2..3, other shapes {consts['PoolSize']} arrays each), the same functions on one array with no axis and with every "
+                f"-2..3 for pairs and -2,0,3 for longer lists, other shapes {consts['PoolSize']} arrays each), the same functions on one array with no axis and with every "
                 "axis, stack at every axis, concat along every axis (also 1-D arrays of different lengths), take with every "
                 "integer index and with index sequences, add/subtract/multiply/divide/pow on equal shapes and with a scalar, "
                 "and f(f(b1),..,f(bk)) through the implementation for every composition 1<k<n (all float64); plus dtype bool "
@@ -65,11 +69,13 @@ def run(ctx):
                 "(),(2),(2,2) and (),(3),(2,3), every ordered list of 2..3 with two different ranks): stack at every axis "
                 "-(R+1)..R on both backends, add/subtract/multiply on both, sum/prod/min/max/mean on the xarray backend (the "
                 "array-API backend does not define them for ragged arguments), reference NumPy on the broadcast arguments, "
-                "xarray results compared by dimension NAME with the new dimension at the requested position; "
+                "xarray results compared by dimension NAME with the new dimension at the requested position; plus take with "
+                "negative (-1, -n), repeated and out-of-range (n, n+1, -n-1) indices, scalar and sequence, every axis from both "
+                "ends, on both backends - an out-of-range index must raise IndexError as NumPy does; "
                 "each case evaluated on numpy "
                 "arrays and on DataArrays; non-trivial = more than one element involved; batchability of each variadic "
                 f"function decided by TLC on 1..{consts['BatchArgs']} arguments, every composition into consecutive batches",
-        "clauses": ["raised", "shape_differs", "value_differs", "marked_but_not_batchable",
+        "clauses": ["raised", "shape_differs", "value_differs", "index_error_not_raised", "dims_differ", "new_dimension_misplaced", "marked_but_not_batchable",
                     "batchable_as_documented_but_not_marked", "documented_as_not_batchable_but_marked",
                     "model_contradicts_documentation"],
     })
